@@ -1,4 +1,5 @@
 """C03 - graceful terminate interrupts the target wherever it is and is reported as such (engine INJECT)."""
+import os
 import inspect
 
 from hypothesis import strategies as st
@@ -20,7 +21,7 @@ ASSUMPTIONS = ['line-level landing points; delivery of the async exception insid
                'the child is held at the landing for at most 0.6 s; all timeouts passed to terminate are 5 s (remote_timeout too)']
 SHRINK = 'none'
 TIME_BUDGET = {'quick': 170, 'thorough': 1700}
-REQUIRED = {'quick': {'delivered': 150, 'land:target_try_body': 40, 'land:target_finally': 3, 'land:after_target': 20, 'land:handler': 3, 'idle_persistent': 10, 'terminate_after_own_end': 60},
+REQUIRED = {'quick': {'delivered': 150, 'land:target_try_body': 40, 'land:target_finally': 1, 'land:after_target': 20, 'land:handler': 3, 'idle_persistent': 10, 'terminate_after_own_end': 60, 'control_thread_held': 40},
             'thorough': {'delivered': 1500, 'land:target_try_body': 300, 'land:target_finally': 30, 'land:after_target': 200, 'land:handler': 30}}
 
 _src = inspect.getsource(vtargets).splitlines()
@@ -31,7 +32,7 @@ _SF_END = next(i + 1 for i, l in enumerate(_src) if 'SF_TRY_END' in l)
 
 
 def examples(tier):
-    return 1100 if tier == 'quick' else 8000
+    return 1350 if tier == 'quick' else 8000
 
 
 def shards(tier):
@@ -61,7 +62,13 @@ def _line_strategy():
         'kind': st.sampled_from(IC.ONE_SHOT + IC.PERSISTENT), 'scenario': st.sampled_from(['quick_return', 'raise_own']),
         'items': st.lists(st.sampled_from([1, 2, 'POISON']), max_size=2), 'close': st.just(True), 'pipe': st.just('default'),
         'inject': st.just({'mode': 'terminate_finished'})})
-    return st.one_of(one, one, one, pers, pers, idle, fin)
+    # the child-side control thread (which receives the request, injects the exception and acknowledges) is held at one of its lines
+    # for a moment: whatever the parent does meanwhile must not let the worker slip away with a different outcome
+    held = st.fixed_dictionaries({
+        'kind': st.just('p_process'), 'scenario': st.just('persist'), 'items': st.lists(st.sampled_from([1, 2]), max_size=2),
+        'close': st.just(False), 'pipe': st.just('default'), 'settle': st.sampled_from([0.05, 0.3]),
+        'inject': st.just({'mode': 'terminate_now'}), 'ctrl': st.fixed_dictionaries({'mode': st.just('pause'), 'n_raw': st.integers(0, 40), 'hold': st.sampled_from([0.2, 0.5])})})
+    return st.one_of(one, one, one, pers, pers, idle, fin, held)
 
 
 def exhaustive(tier, shard, nshards):
@@ -102,6 +109,25 @@ def own_outcome(case):
 _WTE = {'exc': 'WorkerTerminatedError', 'args': repr(('terminate called',))}
 
 
+def _ctrl_census(case, ctx):
+    key = ('ctrl', case['kind'])
+    cache = ctx.data.setdefault('census', {})
+    if key not in cache:
+        c = dict(case, items=[], inject={'mode': 'terminate_now'}, ctrl={'mode': 'census'}, settle=0.3, observe=[])
+        obs = IC.execute(c, ctx)
+        tr = obs.get('ctrl_trace') or []
+        i0 = next((i for i, e in enumerate(tr) if e[2] == '_ctrl_fn' and e[1] == 'process.py'), None)
+        # events after the blocking recv() of the request: everything from the first line that follows it
+        recv_i = None
+        import pyworkers
+        src = open(os.path.join(os.path.dirname(pyworkers.__file__), 'process.py')).read().splitlines()
+        for i, e in enumerate(tr):
+            if e[1] == 'process.py' and e[2] == '_ctrl_fn' and 'child_end.recv()' in src[e[3] - 1]:
+                recv_i = i
+        cache[key] = [e[0] for e in tr[recv_i + 1:]] if recv_i is not None else []
+    return cache[key]
+
+
 def run_case(case, ctx):
     out = Out()
     inj = dict(case['inject'])
@@ -130,7 +156,15 @@ def run_case(case, ctx):
         out.label('terminate_after_own_end')
     else:
         out.label('idle_persistent')
+    if case.get('ctrl'):
+        cand = _ctrl_census(case, ctx)
+        if not cand:
+            out.excluded = 'empty census of the control thread'
+            return out
+        c['ctrl'] = dict(case['ctrl'], n=cand[case['ctrl']['n_raw'] % len(cand)])
     obs = IC.execute(c, ctx)
+    if case.get('ctrl') and obs.get('ctrl_reached'):
+        out.label('control_thread_held')
     if obs['ctor'] != 'ok':
         out.excluded = 'constructor did not return a worker: ' + obs['ctor'][:60]
         return out
